@@ -14,6 +14,8 @@ use vlib::util::{h64, hex};
 use vlib::vpipe::Pipe;
 
 struct Cli {
+    /// deliveries sent per link handle (the sender's delivery-count; every attach announces 0)
+    sent_on: std::collections::HashMap<u32, u32>,
     next_tid: u32,
     next_tag: u32,
     next_handle: u32,
@@ -44,6 +46,7 @@ fn attach(name: &str, handle: u32, target: TargetArchetype) -> Attach {
 fn send_delivery(peer: &mut Peer, cli: &mut Cli, handle: u32, state: Option<DeliveryState>, payload: &[u8], frames: usize, settled: bool) -> Result<u32, String> {
     let did = cli.next_tid;
     let tag = cli.next_tag;
+    *cli.sent_on.entry(handle).or_insert(0) += 1;
     cli.next_tag += 1;
     let chunk = payload.len().div_ceil(frames).max(1);
     let parts: Vec<&[u8]> = payload.chunks(chunk).collect();
@@ -142,11 +145,23 @@ fn lib_ended(tr: &[WFrame]) -> bool {
 }
 
 pub async fn scenario(events: Vec<Ev>, presettled: bool) -> Obs {
+    scenario_probed(events, presettled, false).await
+}
+
+/// With `probe`, the scripted client asks for the session state (a session flow with echo) after every event;
+/// `Obs::session_probes` then holds, per event, the next-incoming-id the listener reported and the number of
+/// transfer frames the client had sent by then (used by C07: transactional posts are transfer frames too).
+pub async fn scenario_probed(events: Vec<Ev>, presettled: bool, probe: bool) -> Obs {
     let series = if presettled { Series::S2Settled } else { Series::S2 };
     let mut obs = Obs::default();
     let (pipe, a, _b) = Pipe::new();
     let sh: Sh = Default::default();
+    if probe {
+        sh.lock().unwrap().small_credit = Some(4);
+    }
     spawn_listener(a, sh.clone());
+    // probe mode: the client respects the (small) credit; handle -> delivery-count + link-credit of the last flow
+    let mut limit_on: std::collections::HashMap<u32, u32> = Default::default();
     let mut auto = Auto::none();
     auto.max_frame_size = MFS;
     let mut peer = Peer::new(pipe.clone(), 1, auto);
@@ -185,7 +200,7 @@ pub async fn scenario(events: Vec<Ev>, presettled: bool) -> Obs {
     peer.send(0, Performative::Attach(attach("link-2", 1, TargetArchetype::Target(Target::builder().address("q2").build()))));
     peer.send(0, Performative::Attach(attach("ctl-1", 2, TargetArchetype::Coordinator(Coordinator::default()))));
     settle(&mut peer, 3).await;
-    let mut cli = Cli { next_tid: 0, next_tag: 0, next_handle: 3, ctl_handle: Some(2), ctl_count: 1 };
+    let mut cli = Cli { sent_on: Default::default(), next_tid: 0, next_tag: 0, next_handle: 3, ctl_handle: Some(2), ctl_count: 1 };
     // start state reached?
     let lib_attaches = peer.trace.iter().filter(|w| w.dir == Dirn::FromLib && matches!(&w.body, Body::Perf(Performative::Attach(_)))).count();
     let credited = peer
@@ -202,6 +217,13 @@ pub async fn scenario(events: Vec<Ev>, presettled: bool) -> Obs {
         return obs;
     }
 
+    for w in &peer.trace {
+        if let (Dirn::FromLib, Body::Perf(Performative::Flow(f))) = (w.dir, &w.body) {
+            if let (Some(h), Some(c)) = (&f.handle, f.link_credit) {
+                limit_on.insert(h.0, f.delivery_count.unwrap_or(0).wrapping_add(c));
+            }
+        }
+    }
     let mut model = Model::default();
     let mut session_alive = true;
     let never_id = |t: u8| format!("never-declared-{t}").into_bytes();
@@ -216,6 +238,10 @@ pub async fn scenario(events: Vec<Ev>, presettled: bool) -> Obs {
             Ev::X1 | Ev::X2 => cli.ctl_handle.is_some(),
             Ev::Declare => model.free_slot().is_some(),
             Ev::X3 => false,
+            Ev::Post { link, .. } if probe => {
+                let h = *link as u32 - 1;
+                cli.sent_on.get(&h).copied().unwrap_or(0) < limit_on.get(&h).copied().unwrap_or(0)
+            }
             _ => true,
         };
         if !enabled {
@@ -378,6 +404,22 @@ pub async fn scenario(events: Vec<Ev>, presettled: bool) -> Obs {
             settle(&mut peer, 2).await;
             session_alive = false;
             model.abort_all_live();
+        }
+        if probe {
+            // the listener's own link flows (credit top-ups of its Auto(4) links): what do they say about the session?
+            let sent_now = peer.trace[mark..].iter().filter(|w| w.dir != Dirn::FromLib && matches!(&w.body, Body::Perf(Performative::Transfer(_)))).count();
+            for w in &peer.trace[mark..] {
+                if let (Dirn::FromLib, Body::Perf(Performative::Flow(f))) = (w.dir, &w.body) {
+                    if let (Some(h), Some(c)) = (&f.handle, f.link_credit) {
+                        limit_on.insert(h.0, f.delivery_count.unwrap_or(0).wrapping_add(c));
+                    }
+                    // with exactly one transfer frame sent in this step every flow written in it was written after
+                    // that frame had been received (the flows are reactions to it)
+                    if sent_now == 1 {
+                        obs.session_probes.push((i, name.clone(), Some(f.next_incoming_id), cli.next_tid));
+                    }
+                }
+            }
         }
         obs.executed = i + 1;
         obs.trace.push(format!("-- event {}: {}", i + 1, name));
